@@ -189,6 +189,11 @@ def dual_oracle(prog, check_flags=False) -> List[Tuple[str, str]]:
             return []
     st = prog[-1]
     L = st[1]
+    if not check_flags and any(du.const.get(n) != t.constant for n, t in ex.v.items()):
+        # the constant rule itself is C10's property (its known finding: a where-masked in-place ufunc through a
+        # forced-non-constant view flips the flag of a constant base); a program on which some flag already differs
+        # from the rule is outside the gradient oracles of the other properties
+        return []
     if du.const[L] != ex.v[L].constant:
         # the constant rule itself is C10's property; elsewhere a program on which the flags already differ
         # (known C10 finding: forced non-constant views of constant bases) is outside this oracle
